@@ -113,7 +113,7 @@ class Run:
         return -self.rc if self.rc is not None and self.rc < 0 else 0
 
 
-def run(argv, stdin=b"", env=None, timeout=60, cwd=None, stdin_file=None, stdout_file=None):
+def run(argv, stdin=b"", env=None, timeout=60, cwd=None, stdin_file=None, stdout_file=None, ignore_pipe=False, preexec=None):
     e = dict(os.environ)
     for k in list(e):
         if k.startswith("VERIF_") and k not in ("VERIF_SCRATCH",):
@@ -128,7 +128,8 @@ def run(argv, stdin=b"", env=None, timeout=60, cwd=None, stdin_file=None, stdout
     try:
         p = subprocess.Popen(argv, stdin=fin if fin else subprocess.PIPE,
                              stdout=fout if fout else subprocess.PIPE, stderr=subprocess.PIPE,
-                             env=e, cwd=cwd, start_new_session=True)
+                             env=e, cwd=cwd, start_new_session=True, restore_signals=not ignore_pipe,
+                             preexec_fn=preexec)
         try:
             out, err = p.communicate(None if fin else stdin, timeout=timeout)
             to = False
